@@ -401,4 +401,17 @@ theorem binaryRoundTrip_canonical {t r : List Cell} {ext : Codec.Ext} {wflag : B
   · exact fromBinary_canonical h
   · cases h
 
+/-! ## evaluation rules for the non-vacuity example of `run4_canonical` -/
+
+theorem run4_cons {t t' : List Cell} {op : Op4} {ops : List Op4} (h : step4 t op = .ok t') :
+    run4 t (op :: ops) = run4 t' ops := by
+  simp [run4, h]
+
+/-- `t[i:j]` through the general `__getitem__` -/
+theorem getItemAnySlice_eval {t r : List Cell} {i j : Option Int} (hr : Triangle.ofCells (pySlice t i j) = .ok r) :
+    step4 t (.getItemAny (.slice i j none)) = .ok r := by
+  simp [step4, Triangle.getItemAny, pyGetSlice, triangleOnly, bind, Except.bind, hr, pure, Except.pure]
+
+theorem step4_base {t : List Cell} {op : Op3} : step4 t (.base op) = step3 t op := rfl
+
 end Bermuda.AllOps
